@@ -518,6 +518,9 @@ def run(ctx):
     chk.rule("R02.4", "fold bookkeeping: right node and its claim removed, positions right of it decremented, operator recorded, operator table kept aligned")
     chk.rule("R02.5", "afterwards exactly the recorded operators are dropped from the operator list")
     chk.rule("R02.6", "flat: a literal's own unary composition is applied exactly once before folding, and reset")
+    chk.rule("R02.7", "a literal's unary composition is folded by UnaryOp::apply, the same function evaluation uses - no second application loop")
+    from rules import c01
+    c01.application_discipline(chk, fb, "R02.7", caps=False)
     flat = fb.find_bodies(lambda b: b["kind"] == "AssocFn" and b.get("name") == "compile" and (b.get("impl_self_ty") or "").startswith("expression::flat::FlatEx<"))
     deep = fb.find_bodies(lambda b: b["kind"] == "AssocFn" and b.get("name") == "compile" and (b.get("impl_self_ty") or "").startswith("expression::deep::DeepEx<"))
     if len(flat) != 1 or len(deep) != 1:
